@@ -633,9 +633,11 @@ class JSONWriter(GenericWriter):
                 record, self.schema, self._named_schemas, "", True, self.options
             )
         self._nothing_written = False
+        self.encoder.start_value()
         write_data(
             self.encoder, record, self.schema, self._named_schemas, "", self.options
         )
+        self.encoder.end_value()
 
     def flush(self):
         if self._nothing_written:
